@@ -733,7 +733,16 @@ def _g5(run, M, nops=3, rank=2, tag=""):
         rets = [o for o in outs if o.status == "return"]
         want = "fn:%s(kw:axis(0), kw:shapes(comp([fn:sigpy.util.prod(kw:shape(@0))], shapes)))" % q
         got = T.show(_t(rets[0].ret), 300) if len(rets) == 1 and isinstance(rets[0].ret, T.Poly) else ""
-        run.check(got.replace(" ", "") == want.replace(" ", ""), "G5", short + " axis=None", f.loc(),
+        # the recursion may sit in a private helper the function wraps (same arguments plus constants such as the exception class to raise):
+        # that helper is certified by the axis cases above, through which this function was read
+        import re as _re
+        m_ = _re.match(r"fn:(sigpy\.linop\._\w+)\((.*)\)$", got.replace(" ", ""))
+        ok_ = got.replace(" ", "") == want.replace(" ", "")
+        if not ok_ and m_ and m_.group(1) != q:
+            args_ = m_.group(2)
+            ok_ = "kw:axis(0)" in args_ and "kw:shapes(comp([fn:sigpy.util.prod(kw:shape(@0))],shapes))" in args_ and M.has_func(m_.group(1)) \
+                and all(a_.startswith(("kw:axis(", "kw:shapes(")) or _re.match(r"kw:\w+\([A-Za-z_.]+\)$", a_) for a_ in _re.split(r",(?=kw:)", args_))
+        run.check(ok_, "G5", short + " axis=None", f.loc(),
                   "axis=None concatenates the flattened sizes along axis 0",
                   "%s(shapes, None) evaluates %s; expected the same helper on [[prod(s)] for s in shapes] with axis 0" % (short, got or "several paths"),
                   stmt="G5:none:" + short)
